@@ -1470,6 +1470,17 @@ impl<'c> Eng<'c> {
                     self.model.validated.insert(from % NADDR);
                     self.ctx.count("incoming-accepted");
                 }
+                // a request / indication answered as if it were a response: if a transaction with its
+                // id is outstanding, that transaction has just been consumed by something that is not
+                // its response (C05: it ends only by its response, a time-out or a cancellation)
+                R::Response(..) if self.model.txs.contains_key(&i) => self.fail(
+                    "C05",
+                    "response-only-for-responses",
+                    "StunAgent::handle_stun",
+                    "request-or-indication-with-an-outstanding-id",
+                    "IncomingStun(the same message); the outstanding transaction with this id untouched".into(),
+                    rname,
+                ),
                 _ => self.fail("C15", "incoming-handed-back", "StunAgent::handle_stun", "", "IncomingStun(the same message)".into(), rname),
             }
             return;
